@@ -29,9 +29,9 @@ ASSUMPTIONS = [
     "separator rule, print_block_string(value, minimize=True) for block strings, source slice otherwise) on top of "
     "the lexer model Lang/Lexer.v and the block-string model Lang/BlockString.v; a lexical error is the outcome "
     "SyntaxErr with the position in the original source (messages are not modelled)",
-    "theorems C09_strip_preserves_tokens / C09_strip_idempotent / C09_strip_tight / C09_strip_preserves_parse assume a "
-    "source of Unicode scalar values (no surrogate code points: the block-string round trip C08_block_roundtrip is "
-    "proved for scalar values); the correspondence and the direct predicates also run sources with surrogates",
+    "the strip theorems hold for every list of code points (no hypothesis on the source): block-string values with "
+    "surrogate pairs are covered by Lang/StripBlock.v, which re-proves the C08 block round trip for values whose "
+    "surrogates occur as lead-trail pairs (what the lexer accepts)",
 ]
 
 
@@ -150,7 +150,7 @@ def families(tier, rng):
     def docs():
         for c in common.load_corpus(PID):
             yield from_cps(c["body"])
-        extra_ign = gen_doc.IGNORED_SEQS + ["﻿", "\r", ",\r\n,", "#\ud800\n", "# \U0001F600\r"]
+        extra_ign = gen_doc.IGNORED_SEQS + ["\ufeff", "\r", ",\r\n,", "#\ud800\n", "# \U0001F600\r"]
         for i in range(400 if quick else 6000):
             g = gen_doc.Gen(rng, depth=2, experimental=(i % 3 == 0))
             lx = g.document()
@@ -184,7 +184,7 @@ def families(tier, rng):
                 yield '"""' + "".join(raw) + '""" a'
         for _ in range(2000 if quick else 40000):
             k = rng.randint(3, 14)
-            raw = "".join(rng.choice(BLOCK_ALPHA + ["  ", "\n ", '"""', '\\"""', "\U0001F600", "\x0b", " "])
+            raw = "".join(rng.choice(BLOCK_ALPHA + ["  ", "\n ", '"""', '\\"""', "\U0001F600", "\x0b", "\u2028", "\ud83d\ude00", "\ud83d", "\ude00"])
                           for _ in range(k))
             yield rng.choice(BLOCK_CTX) % ('"""' + raw + '"""')
     yield "block", blocks()
@@ -203,7 +203,7 @@ def core(ck, tier, model_ok):
         "the token boundaries, with ignored sequences inserted at random offsets (also inside lexemes) and random "
         f"truncations; (block) block strings \"\"\"raw\"\"\" for all raw contents of length <= {4 if quick else 6} over "
         f"{BLOCK_ALPHA!r} alone and in the neighbourhoods {BLOCK_CTX[1:]!r}, longer contents over a 5-symbol "
-        "sub-alphabet and random long contents. On every accepted output the tightness predicate (C09_strip_tight) "
+        "sub-alphabet and random long contents (incl. surrogate pairs and lone surrogates as separate code points). On every accepted output the tightness predicate (C09_strip_tight) "
         "is evaluated with the implementation's lexer. non-trivial = the output differs from the input, or a "
         "rejection at a position > 0")
     t0 = time.time()
